@@ -70,9 +70,21 @@ class Lexer:
         return out
 
 
+_TRANSPARENT = ("entries", "bindings")      # the list inside a list wrapper prints as the wrapper does
+
+
 def _hole_field(symrepr):
-    m = re.match(r"\$self\.([A-Za-z_0-9]+)", symrepr)
-    return m.group(1) if m else symrepr
+    """the field a printed hole stands for: `$self.f` (or the list inside its wrapper); a deeper path - a part of the field's value,
+    e.g. the name of the call in `scrutinee` - is kept as it is, so that it cannot be taken for the field"""
+    m = re.match(r"\$self\.([A-Za-z_0-9]+)((?:\.[A-Za-z_0-9]+)*)$", symrepr)
+    if not m:
+        return symrepr
+    rest = [x for x in m.group(2).split(".") if x]
+    while rest and rest[-1] in _TRANSPARENT:
+        rest.pop()
+    if rest:
+        return m.group(1) + "." + ".".join(rest)
+    return m.group(1)
 
 
 def node_templates(ctx, adt, enum_fields):
@@ -351,6 +363,13 @@ def rule_pgram(ctx):
                                     "the analysis cannot follow this printer" % (adt, ", ".join(unknown)[:200]))
             cd = lambda fld, o, cl, adt=adt: child_prints_delims(ctx, lexer, adt, fld, o, cl)
             ok = not bad_tok and any(match(lt, seq, tuple(enum_fields), cd) for _, seq in seqs)
+            partial = sorted({t[1] for t in lt if t[0] != "tok" and isinstance(t[1], str) and "." in t[1] and re.fullmatch(r"[A-Za-z_0-9.]+", t[1])})
+            if partial:
+                res.inst(ikey, f["sp"]["file"], f["sp"]["line"], "violation", _show(lt))
+                res.violate(ikey + ":part", "the printer of %s prints only a part (`%s`) of its field `%s` where the grammar has the whole field: the rest "
+                            "of the field's value is lost, formatting changes what the text parses to (printed form `%s`)" %
+                            (adt.split("::")[-1], partial[0], partial[0].split(".")[0], _show(lt)), f["sp"]["file"], f["sp"]["line"])
+                continue
             if ok:
                 res.inst(ikey, f["sp"]["file"], f["sp"]["line"], "ok", _show(lt))
             else:
